@@ -165,6 +165,27 @@ def check(ctx):
     rp = repo.fn("dataiter.dt.replace")
     ok = any("replace(**kwargs" in norm(c) for _, c in calls_in(rp))
     ctx.ob("SIB-18", rp, "replace -> datetime.replace(**kwargs)", rp.node, ok, "components are forwarded to datetime.replace" if ok else "replace does not forward components", nontrivial=False)
+    loops = [n for n in ast.walk(rp.node) if isinstance(n, ast.For) and "flatnonzero" in norm(n.iter) or
+             (isinstance(n, ast.For) and isinstance(n.iter, ast.Call) and norm(n.iter.func) == "enumerate")]
+    for l in [n for n in ast.walk(rp.node) if isinstance(n, ast.For)]:
+        stores = [n for n in ast.walk(l) if isinstance(n, ast.Assign) and isinstance(n.targets[0], ast.Subscript) and norm(n.targets[0].value) == "out"]
+        if not stores:
+            continue
+        pos = norm(stores[0].targets[0].slice)
+        vec_idx = {norm(n.slice) for n in ast.walk(l) if isinstance(n, ast.Subscript) and isinstance(n.value, ast.Subscript)
+                   and norm(n.value.value) == "kwargs"}
+        ok = vec_idx <= {pos} and bool(vec_idx)
+        ctx.ob("SIB-19", rp, f"out[{pos}] built from vector arguments indexed {sorted(vec_idx)}", stores[0], ok,
+               "vector arguments are read at the vector position that is written" if ok else
+               f"the result for position {pos} uses argument elements at {sorted(vec_idx - {pos})}: with a NaT before a valid element "
+               f"the components come from another position", clause="all replace arguments (scalar or vector)")
+        src_idx = {norm(n.slice) for n in ast.walk(stores[0].value) if isinstance(n, ast.Subscript) and norm(n.value) in ("xobj", "x")}
+        xo = [n for n in body_nodes(rp.node) if isinstance(n, ast.Assign) and norm(n.targets[0]) == "xobj"]
+        full = bool(xo) and norm(xo[0].value) in ("x.astype(object)",)
+        ok = (src_idx <= {pos} and full) or (not full and src_idx and src_idx != {pos})
+        ctx.ob("SIB-19", rp, f"source element {sorted(src_idx)} of {norm(xo[0].value) if xo else '?'}", stores[0], bool(ok),
+               "the element replaced is the one at the written position" if ok else
+               "the source element and the written position use indices of different index spaces", nontrivial=False)
     # --------------------------------------------------------------- SIB-19
     pulls = [repo.fn(f"dataiter.dt.{n}") for n in ("_pull_datetime", "_pull_int", "_pull_str")]
     for f in pulls + [repo.fn("dataiter.dt.from_string")]:
